@@ -203,6 +203,37 @@ mod verif_c13 {
     event_identity!(ev_f32, visit_f32, f32, f32ev);
     event_identity!(ev_f64, visit_f64, f64, f64ev);
 
+    // strings and bytes: every visit form stores the same text / bytes, which are re-emitted as a string / bytes event
+    #[kani::proof]
+    #[kani::stub(core::fmt::write, nofmt_write)]
+    #[kani::unwind(6)]
+    fn ev_strings_and_bytes() {
+        let b: [u8; 2] = kani::any();
+        kani::assume(b[0] < 128 && b[1] < 128);
+        let s = std::str::from_utf8(&b).unwrap();
+        let want = Ev::Str(2, head(&b));
+        let a = AnyVisitor.visit_str::<MockErr>(s).unwrap();
+        assert!(emitted(&a) == want);
+        std::mem::forget(a);
+        let a = AnyVisitor.visit_string::<MockErr>(s.to_string()).unwrap();
+        assert!(emitted(&a) == want);
+        std::mem::forget(a);
+        let a = AnyVisitor.visit_borrowed_str::<MockErr>("ab").unwrap();
+        assert!(emitted(&a) == Ev::Str(2, head(b"ab")));
+        std::mem::forget(a);
+        let wantb = Ev::Bytes(2, head(&b));
+        let a = AnyVisitor.visit_bytes::<MockErr>(&b).unwrap();
+        assert!(emitted(&a) == wantb);
+        std::mem::forget(a);
+        let mut v = Vec::with_capacity(2);
+        v.push(b[0]);
+        v.push(b[1]);
+        let a = AnyVisitor.visit_byte_buf::<MockErr>(v).unwrap();
+        assert!(emitted(&a) == wantb);
+        std::mem::forget(a);
+        kani::cover!(true);
+    }
+
     #[kani::proof]
     #[kani::stub(core::fmt::write, nofmt_write)]
     fn ev_unit_none() {
@@ -573,5 +604,49 @@ mod verif_c13 {
         assert!((c == Color::Red) == red);
         kani::cover!(red);
         kani::cover!(!red);
+    }
+
+    // more key types: every integer width / f32 / char / bool, typed or spelled as a string
+    macro_rules! key_literal {
+        ($name:ident, $t:ty, $lit:expr, $want:expr) => {
+            #[kani::proof]
+            #[kani::stub(core::fmt::write, nofmt_write)]
+            #[kani::unwind(8)]
+            fn $name() {
+                assert!(<$t>::deserialize(KeyDeserializer(Any(Inner::String($lit.to_string())))).unwrap() == $want);
+                kani::cover!(true);
+            }
+        };
+    }
+    key_literal!(key_lit_u8, u8, "200", 200u8);
+    key_literal!(key_lit_i8, i8, "-5", -5i8);
+    key_literal!(key_lit_u16, u16, "65535", 65535u16);
+    key_literal!(key_lit_i64, i64, "-12", -12i64);
+    key_literal!(key_lit_char, char, "x", 'x');
+
+    #[kani::proof]
+    #[kani::stub(core::fmt::write, nofmt_write)]
+    fn key_more_types_native() {
+        let a: u8 = kani::any();
+        assert!(u8::deserialize(KeyDeserializer(Any(Inner::U8(a)))).unwrap() == a);
+        let b: i8 = kani::any();
+        assert!(i8::deserialize(KeyDeserializer(Any(Inner::I8(b)))).unwrap() == b);
+        let c: u16 = kani::any();
+        assert!(u16::deserialize(KeyDeserializer(Any(Inner::U16(c)))).unwrap() == c);
+        let d: i16 = kani::any();
+        assert!(i16::deserialize(KeyDeserializer(Any(Inner::I16(d)))).unwrap() == d);
+        let e: u32 = kani::any();
+        assert!(u32::deserialize(KeyDeserializer(Any(Inner::U32(e)))).unwrap() == e);
+        let f: i64 = kani::any();
+        assert!(i64::deserialize(KeyDeserializer(Any(Inner::I64(f)))).unwrap() == f);
+        let g: f32 = kani::any();
+        assert!(f32::deserialize(KeyDeserializer(Any(Inner::F32(OrderedFloat(g))))).unwrap().to_bits() == g.to_bits());
+        let h: bool = kani::any();
+        assert!(bool::deserialize(KeyDeserializer(Any(Inner::Bool(h)))).unwrap() == h);
+        let i: i128 = kani::any();
+        assert!(i128::deserialize(KeyDeserializer(Any(Inner::I128(i)))).unwrap() == i);
+        let j: u128 = kani::any();
+        assert!(u128::deserialize(KeyDeserializer(Any(Inner::U128(j)))).unwrap() == j);
+        kani::cover!(true);
     }
 }
